@@ -134,8 +134,8 @@ def gen_plan(src):
 
 def watchdog_ms(ctx, rerun=False):
     if rerun:
-        return ctx.scale(60000, 180000)
-    return ctx.scale(30000, 120000)
+        return 180000
+    return ctx.scale(60000, 120000)
 
 
 def run_plan(drv, case, wd_ms):
